@@ -54,11 +54,11 @@ CHECKS = {
    note="bounded scope (kind sequences <= 4 quick / <= 5 thorough; seeded long files); history length covered by the single-step-from-any-cursor reduction (state scope bounded)",
    tech=TECH + " of the offset arithmetic (pyvc) + " + BND, ref="DESIGN.md section 6 C12"),
  "C13": dict(cat="other", engine="pyvc+symrun+smallscope",
-   text="Five-digit wrap: the wrap expressions are extracted from the AST of the real parse_atomlist and proved over all integers (n <= 99999 unchanged; always <= 5 digits). Record layout: the real writer/reader functions run on symbolic numbers with marker strings: every format (d+5,d), d=1..6, velocities on/off, name lengths: right fields in the right columns, line length 20+3w(1+vel), determine_format inverts the writer. Bounded part: real GroFile write/read on real files (titles, boxes, count modes, boundary values).",
-   note="str.format / int / float by contract on marker strings (A3); one representative name per length (A6); file-level behaviour bounded only",
+   text="Five-digit wrap: the wrap expressions are extracted from the AST of the real parse_atomlist and proved over all integers (n <= 99999 unchanged; always <= 5 digits). Record layout: the real writer/reader functions run on symbolic numbers with marker strings: every format (d+5,d), d=1..6, velocities on/off, name lengths: right fields in the right columns, line length 20+3w(1+vel), determine_format inverts the writer. Writer layout invariant (pyvc, any number of records): _setup_write_file / writeline / _write_closing_info against each other's contracts: cursor = file length = first_atom_offset + k*line_size, the deferred count overwrites exactly its placeholder, the box line follows the last record, a declared count different from the records written raises. Bounded part: real GroFile write/read on real files (titles, boxes, count modes, boundary values).",
+   note="str.format / int / float by contract on marker strings (A3); one representative name per length (A6); writer layout: strings by length, offsets are character counts; file contents bounded only",
    tech=TECH + ": AST-extracted integer VCs (z3) + symbolic execution with token strings + " + BND, ref="DESIGN.md section 6 C13"),
  "C14": dict(cat="other", engine="pyvc+smallscope",
-   text="Deductive core (pyvc, files of any length and content): GroFile._load_box_matrix and _load_and_verify return normally only if the file extends past first_atom_offset + declared_count*line_size (where the box line must start), with the callees by contract (try/except and raising callees modelled); corollary (z3): every prefix of a complete file that ends before its box line is refused. Bounded: reader contract (accepted prefix returns exactly the complete file's records) on every byte prefix of generated and shipped files; writer contract (every flushed state before close() returns is rejected) at every low-level write/seek of real writer sessions.",
+   text="Deductive core (pyvc, files of any length and content): the writer's layout invariant (shared with C13; supporting, soft) and a corollary: a writer that declared n records and stops after k <= n writeline calls leaves a file the reader refuses; GroFile._load_box_matrix and _load_and_verify return normally only if the file extends past first_atom_offset + declared_count*line_size (where the box line must start), with the callees by contract (try/except and raising callees modelled); corollary (z3): every prefix of a complete file that ends before its box line is refused. Bounded: reader contract (accepted prefix returns exactly the complete file's records) on every byte prefix of generated and shipped files; writer contract (every flushed state before close() returns is rejected) at every low-level write/seek of real writer sessions.",
    note="deductive part: file = (length, cursor), offsets are character counts; what int()/determine_format/extract_lattice_gro do with the characters is a free choice; bounded scope 1..4 records quick / 1..8 thorough + shipped files; operation granularity = each low-level write/seek; OS-level atomicity not modelled",
    tech=TECH + " of the reader's acceptance logic (pyvc, try/except) + " + BND, ref="DESIGN.md section 6 C14"),
  "C15": dict(cat="other", engine="pyvc+smallscope+static",
